@@ -295,12 +295,20 @@ def decAux (n : Nat) (acc : Bytes) : Bytes :=
 termination_by n
 decreasing_by omega
 
-def natBytes (n : Nat) : Bytes := decAux n []
+/-- the same digits by structural recursion on a fuel (so that the kernel can evaluate it);
+    `n` itself is enough fuel (`Lemmas/CsvDec.lean`: `natBytes_eq`) -/
+def decFuel : Nat → Nat → Bytes → Bytes
+  | 0, n, acc => UInt8.ofNat (48 + n % 10) :: acc
+  | f + 1, n, acc =>
+    if n < 10 then UInt8.ofNat (48 + n) :: acc
+    else decFuel f (n / 10) (UInt8.ofNat (48 + n % 10) :: acc)
 
-/-- `MemStorage::load_sig` : `get(path).unwrap()` ; `save_sig` inserts into a map, so the last
-    signature saved under a path wins -/
+def natBytes (n : Nat) : Bytes := decFuel n n []
+
+/-- `MemStorage::load_sig` : `get(path).unwrap()`.  The storage is a map; `from_sigs` saves under
+    pairwise different paths, so which entry a list look-up finds first is immaterial. -/
 def loadSig (st : List (Bytes × Sig)) (path : Bytes) : Option Sig :=
-  match st.reverse.find? (fun p => p.1 == path) with
+  match st.find? (fun p => p.1 == path) with
   | some p => some p.2
   | none => none
 
